@@ -221,6 +221,11 @@ func registerIntrinsics(e *Engine) {
 		// low 64 bits of |x| with the sign applied (as math/big does)
 		x := bigArg(p, fr, args[0], pos)
 		tb := p.tb
+		if x.bvS != nil {
+			c := *x.bvS
+			c.ivS = x
+			return &c
+		}
 		lo := tb.Int2BV(tb.IAbs(x), 64)
 		r := tb.Ite(tb.ILt(x, IntConst64(0)), tb.BVNeg(lo), lo)
 		if !r.c {
@@ -240,6 +245,11 @@ func registerIntrinsics(e *Engine) {
 	}
 	I["(*math/big.Int).Uint64"] = func(p *Path, fr *frame, fn *ssa.Function, args []Value, pos token.Pos) Value {
 		x := bigArg(p, fr, args[0], pos)
+		if x.bvU != nil {
+			c := *x.bvU
+			c.ivU = x
+			return &c
+		}
 		r := p.tb.Int2BV(p.tb.IAbs(x), 64)
 		if !r.c {
 			c := *r
